@@ -8,10 +8,14 @@
     multiple of 4 is the root of its own batch, stored under its hash; the slots 15..30 of
     the parent batch hold the hashes of those sub-batches.
 
-    The store is (db, upd): [db] = the committed key-value store (hash -> serialized batch,
-    trie_cache.go:serializeBatch / trie.go:parseBatch), [upd] = CacheDB.updatedNodes.
-    liveCache is never populated in the node (CacheHeightLimit = TrieHeight+1) and is not
-    modelled.  Value semantics: a batch taken from [upd] is a copy.  In Go, Update (not
+    The store is (db, upd, cache): [db] = the committed key-value store (hash -> serialized
+    batch, trie_cache.go:serializeBatch / trie.go:parseBatch), [upd] = CacheDB.updatedNodes,
+    [cache] = CacheDB.liveCache, consulted first by loadBatch; storeNode caches a batch whose
+    height is >= [climit] (= Trie.CacheHeightLimit; the node never sets it: TrieHeight+1, no
+    cache) and deleteOldNode evicts under the same test.  In Go, Update (not AtomicUpdate)
+    mutates the very slice it got from liveCache: an entry that is not evicted ends up holding
+    the batch's FINAL contents.  This aliasing is modelled by [alias_back] at the batch root.
+    Otherwise value semantics: a batch taken from [upd] is a copy.  In Go, Update (not
     AtomicUpdate) mutates the very slice kept in updatedNodes; the two coincide when every
     Update is followed by a Commit (what the node does) — the correspondence check compares
     this layer only on such histories.
@@ -63,7 +67,7 @@ Definition parse_batch (val : bytes) : batch :=
   else [0%N] :: parse_slots (firstn 30 bm) body.
 
 (** ---- the store ---- *)
-Record store := { db : list (bytes * bytes); upd : list (bytes * batch) }.
+Record store := { db : list (bytes * bytes); upd : list (bytes * batch); cache : list (bytes * batch) }.
 
 Fixpoint alookup {A} (l : list (bytes * A)) (k : bytes) : option A :=
   match l with
@@ -77,33 +81,57 @@ Fixpoint aremove {A} (l : list (bytes * A)) (k : bytes) : list (bytes * A) :=
   end.
 Definition aput {A} (l : list (bytes * A)) (k : bytes) (v : A) : list (bytes * A) := (k, v) :: aremove l k.
 
-(** loadBatch: updatedNodes first, then the disk store *)
+(** loadBatch: liveCache, then updatedNodes, then the disk store *)
 Definition load_batch (st : store) (root : bytes) : option batch :=
-  match alookup (upd st) (map_key root) with
+  match alookup (cache st) (map_key root) with
   | Some b => Some b
-  | None => match alookup (db st) (hash_of root) with
-            | Some val => match val with [] => None | _ => Some (parse_batch val) end
-            | None => None
-            end
+  | None =>
+    match alookup (upd st) (map_key root) with
+    | Some b => Some b
+    | None => match alookup (db st) (hash_of root) with
+              | Some val => match val with [] => None | _ => Some (parse_batch val) end
+              | None => None
+              end
+    end
   end.
 
-(** deleteOldNode *)
-Definition delete_old_node (atomic : bool) (st : store) (root : bytes) (moving_up : bool) : store :=
-  if negb atomic || moving_up then {| db := db st; upd := aremove (upd st) (map_key root) |} else st.
+(** deleteOldNode(root, height, movingUp) *)
+Definition delete_old_node (atomic : bool) (climit : nat) (st : store) (root : bytes) (height : nat) (moving_up : bool) : store :=
+  let u := if negb atomic || moving_up then aremove (upd st) (map_key root) else upd st in
+  let c := if Nat.leb climit height then aremove (cache st) (map_key root) else cache st in
+  {| db := db st; upd := u; cache := c |}.
 
-(** Commit / StageUpdates: every updated batch is written under its key; updatedNodes reset *)
+(** Commit / StageUpdates: every updated batch is written under its key; updatedNodes reset;
+    liveCache untouched *)
 Definition commit_store (st : store) : store :=
-  {| db := fold_left (fun d e => aput d (fst e) (serialize_batch (snd e))) (upd st) (db st); upd := [] |}.
+  {| db := fold_left (fun d e => aput d (fst e) (serialize_batch (snd e))) (upd st) (db st); upd := []; cache := cache st |}.
 
 Section B.
 Variable H : bytes -> bytes.
 Variable atomic : bool.
+Variable climit : nat.       (* Trie.CacheHeightLimit *)
 
-(** storeNode (after the repair 20c2caba: always record, compare the 32-byte hashes) *)
-Definition store_node (st : store) (b : batch) (h old_root : bytes) : store :=
-  let st1 := {| db := db st; upd := aput (upd st) (map_key h) b |} in
+(** storeNode(batch, h, oldRoot, height) (after the repair 20c2caba: always record, compare
+    the 32-byte hashes); the batch is cached when height >= CacheHeightLimit *)
+Definition store_node (st : store) (b : batch) (h old_root : bytes) (height : nat) : store :=
+  let st1 := {| db := db st; upd := aput (upd st) (map_key h) b;
+                cache := if Nat.leb climit height then aput (cache st) (map_key h) b else cache st |} in
   if Nat.ltb (length old_root) 32 || negb (beqb (hash_of h) (hash_of old_root))
-  then delete_old_node atomic st1 old_root false else st1.
+  then delete_old_node atomic climit st1 old_root height false else st1.
+
+(** in-place mutation of a batch obtained from liveCache: if its entry is still there at the
+    end of the update of that batch, it holds the final contents *)
+Definition alias_back (st_before st_after : store) (root : bytes) (b_final : batch) : store :=
+  match root with
+  | [] => st_after
+  | _ =>
+    if negb atomic then
+      match alookup (cache st_before) (map_key root), alookup (cache st_after) (map_key root) with
+      | Some _, Some _ => {| db := db st_after; upd := upd st_after; cache := aput (cache st_after) (map_key root) b_final |}
+      | _, _ => st_after
+      end
+    else st_after
+  end.
 
 (** loadChildren: (batch, iBatch, lnode, rnode, isShortcut) *)
 Definition load_children (st : store) (root : bytes) (h i : nat) (cb : batch)
@@ -121,7 +149,7 @@ Definition leaf_hash_b (st : store) (key value old_root : bytes) (b : batch) (i 
   let hh := H (key ++ value ++ [height_byte h]) ++ [1%N] in
   let b1 := bset (bset b (2 * i + 2) (value ++ [2%N])) (2 * i + 1) (key ++ [2%N]) in
   if Nat.eqb (h mod 4) 0 then
-    let b2 := bset b1 0 [1%N] in (store_node st b2 hh old_root, b2, hh)
+    let b2 := bset b1 0 [1%N] in (store_node st b2 hh old_root h, b2, hh)
   else (st, b1, hh).
 
 (** interiorHash *)
@@ -131,7 +159,7 @@ Definition interior_hash_b (st : store) (left right old_root : bytes) (b : batch
   let hh := H (child_pre left ++ child_pre right) ++ [0%N] in
   let b1 := bset (bset b (2 * i + 2) right) (2 * i + 1) left in
   if Nat.eqb (h mod 4) 0 then
-    let b2 := bset b1 0 [0%N] in (store_node st b2 hh old_root, b2, hh)
+    let b2 := bset b1 0 [0%N] in (store_node st b2 hh old_root h, b2, hh)
   else (st, b1, hh).
 
 (** moveUpShortcut *)
@@ -145,10 +173,10 @@ Definition move_up_shortcut (st : store) (shortcut root : bytes) (b : batch) (i 
         let b1 := bset b 0 [1%N] in
         let b2 := bset (bset b1 1 skey) 2 sval in
         let b3 := bset (bset b2 (2 * isc + 1) []) (2 * isc + 2) [] in
-        Some (store_node st b3 ns root, b3, ns, true)
+        Some (store_node st b3 ns root h, b3, ns, true)
       else if Nat.eqb ((h - 1) mod 4) 0 then
         let b2 := bset (bset b (2 * i + 1) skey) (2 * i + 2) sval in
-        Some (delete_old_node atomic st shortcut true, b2, ns, true)
+        Some (delete_old_node atomic climit st shortcut h true, b2, ns, true)
       else
         let b2 := bset (bset b (2 * i + 1) skey) (2 * i + 2) sval in
         let b3 := bset (bset b2 (2 * isc + 1) []) (2 * isc + 2) [] in
@@ -160,7 +188,7 @@ Definition maybe_move_up (st : store) (left right root : bytes) (b : batch) (i h
   : option (option (store * batch * bytes * bool)) :=
   match left, right with
   | [], [] =>
-      if Nat.eqb i 0 then Some (Some (delete_old_node atomic st root true, b, [], true))
+      if Nat.eqb i 0 then Some (Some (delete_old_node atomic climit st root h true, b, [], true))
       else Some (Some (st, bset (bset b (2 * i + 1) []) (2 * i + 2) [], [], true))
   | [], _ => if is_shortcut_node right then Some (move_up_shortcut st right root b i (2 * i + 2) h) else None
   | _, [] => if is_shortcut_node left then Some (move_up_shortcut st left root b i (2 * i + 1) h) else None
@@ -222,7 +250,7 @@ Definition bbody (rec : store -> bytes -> Model.batch bytes -> batch -> nat -> l
     (* the node is a shortcut: add its pair to the keys, clear its two cells *)
     let sk := skipn (length rp) (bytes_to_bits (hash_of lnode0)) in
     let kvs1 := masc sk (hash_of rnode0) kvs in
-    let st1 := if Nat.eqb i' 0 then delete_old_node atomic st root false else st in
+    let st1 := if Nat.eqb i' 0 then delete_old_node atomic climit st root h false else st in
     let b1 := bset (bset b (2 * i' + 1) []) (2 * i' + 2) [] in
     match kvs1 with
     | [] => Some (st1, b1, [], true)
@@ -242,7 +270,7 @@ Fixpoint bupdate (h : nat) (st : store) (root : bytes) (kvs : Model.batch bytes)
       | (k, Some v) :: _ =>
           let '(st', _, n) := leaf_hash_b st (bits_to_bytes (rev_append rp k)) v root empty_batch 0 0 in
           Some (st', cb, n, false)
-      | _ => Some (delete_old_node atomic st root false, cb, [], true)
+      | _ => Some (delete_old_node atomic climit st root 0 false, cb, [], true)
       end
   | S h' =>
       match load_children st root h i cb with
@@ -250,7 +278,9 @@ Fixpoint bupdate (h : nat) (st : store) (root : bytes) (kvs : Model.batch bytes)
       | Some (b, i', lnode0, rnode0, sc) =>
           match bbody (bupdate h') h st root kvs b i' lnode0 rnode0 sc rp with
           | None => None
-          | Some (st', b', n, d) => Some (st', ret_batch h cb b', n, d)
+          | Some (st', b', n, d) =>
+              let st'' := if Nat.eqb (h mod 4) 0 then alias_back st st' root b' else st' in
+              Some (st'', ret_batch h cb b', n, d)
           end
       end
   end.
